@@ -471,3 +471,39 @@ func init() {
 	// sort.Strings on concrete-length symbolic strings: leave order unchanged but record that it was requested
 	// (only used by non-consensus helpers); real sort is executed from SSA otherwise.
 }
+
+func init() {
+	// bytes.Buffer as used by model.Version: NewBufferString / WriteByte / WriteString / String
+	reg("bytes.NewBufferString", func(m *Machine, fn *ssa.Function, a []Value) Value {
+		bt := fn.Signature.Results().At(0).Type().(*types.Pointer).Elem()
+		c := m.newCell(bt, 1, "bytes.Buffer")
+		c.elems[0] = &Handle{kind: "strbuf", obj: a[0].(*Term)}
+		return Pointer{cell: c}
+	})
+	buf := func(m *Machine, v Value) *Cell {
+		p := m.force(v).(Pointer)
+		if p.cell == nil {
+			m.goPanicf("nil-deref", "nil *bytes.Buffer")
+		}
+		if _, ok := p.cell.elems[p.idx].(*Handle); !ok {
+			p.cell.elems[p.idx] = &Handle{kind: "strbuf", obj: m.in.Str("")}
+		}
+		return p.cell
+	}
+	reg("(*bytes.Buffer).WriteString", func(m *Machine, fn *ssa.Function, a []Value) Value {
+		c := buf(m, a[0])
+		h := c.elems[0].(*Handle)
+		c.elems[0] = &Handle{kind: "strbuf", obj: m.in.Concat(h.obj.(*Term), a[1].(*Term))}
+		return TupleVal{m.in.StrLen(a[1].(*Term)), nilIface}
+	})
+	reg("(*bytes.Buffer).WriteByte", func(m *Machine, fn *ssa.Function, a []Value) Value {
+		c := buf(m, a[0])
+		h := c.elems[0].(*Handle)
+		c.elems[0] = &Handle{kind: "strbuf", obj: m.in.Concat(h.obj.(*Term), m.in.StrFromCode(a[1].(*Term)))}
+		return nilIface
+	})
+	reg("(*bytes.Buffer).String", func(m *Machine, fn *ssa.Function, a []Value) Value {
+		c := buf(m, a[0])
+		return c.elems[0].(*Handle).obj.(*Term)
+	})
+}
